@@ -22,7 +22,7 @@ struct Ord
     std::vector<C> c;
     std::map<int, std::vector<int>> kids;  // parent index (-1 = root) -> ordered child indices
     std::vector<int64_t> track_ids;
-    std::map<int, std::vector<int>> entries;  // crate index -> track indices in insertion order
+    std::map<int, std::vector<int>> entries;  // crate index -> entries in insertion order, each encoded as 2 * track index + (1 if the entry carries a foreign database uuid)
     int created = 0;
     bool entity_mode() const { return !track_ids.empty(); }
     bool below(int x, int anc) const
@@ -62,9 +62,21 @@ void op_pl_update(World& w, const Op& op)
     row->next_list_id = op.i[2] < 0 ? v2::PLAYLIST_NO_NEXT_LIST_ID : w.crates.at((size_t)op.i[2]).id();
     pl.update(*row);
 }
+// playlist_entity_table::add_back through the table API, with the library's own uuid (u = 0) or a foreign one (u = 1)
+void op_pe_add_back(World& w, const Op& op)
+{
+    auto pe = w.lib2->playlist_entity();
+    v2::playlist_entity_row row{v2::PLAYLIST_ENTITY_ROW_ID_NONE, w.crates.at((size_t)op.i[0]).id(), w.tracks.at((size_t)op.i[1]).id(),
+                                op.i[2] ? std::string("11111111-2222-3333-4444-555555555555") : w.uuid, v2::PLAYLIST_ENTITY_NO_NEXT_ENTITY_ID, v2::PLAYLIST_ENTITY_DEFAULT_MEMBERSHIP_REFERENCE};
+    pe.add_back(row);
+}
 struct RegisterOps
 {
-    RegisterOps() { World::register_op("pl_update", op_pl_update); }
+    RegisterOps()
+    {
+        World::register_op("pl_update", op_pl_update);
+        World::register_op("pe_add_back", op_pe_add_back);
+    }
 } register_ops;
 
 struct Dom
@@ -81,12 +93,13 @@ struct Dom
                 // entity mode: three tracks (first one removed again so that ids are offset), two crates
                 "create_track(0);remove_track(0);create_track(0);create_track(0);create_track(0);create_root(|x);create_root(|y);add_track(0,1);remove_track_from(0,1)"};
     }
-    static std::vector<Op> alphabet(const Model& m, const World&, int)
+    static std::vector<Op> alphabet(const Model& m, const World&, int remaining)
     {
         std::vector<Op> ops;
         auto live = m.live();
         if (m.entity_mode())
         {
+            if (remaining < 1) return ops;  // entity mode (26 operations per state) is explored one level less deep than crate mode
             for (int c : live)
             {
                 for (int t = 0; t < (int)m.track_ids.size(); ++t)
@@ -94,6 +107,8 @@ struct Dom
                     if (m.track_ids[t] == 0) continue;
                     ops.push_back(Op{"add_track", {c, t}, {}});
                     ops.push_back(Op{"remove_track_from", {c, t}, {}});
+                    ops.push_back(Op{"pe_add_back", {c, t, 0}, {}});
+                    ops.push_back(Op{"pe_add_back", {c, t, 1}, {}});
                 }
                 ops.push_back(Op{"clear_tracks", {c}, {}});
             }
@@ -174,7 +189,7 @@ struct Dom
         if (r.ok)
         {
             if (op.f == "create_track") m.track_ids.push_back(w.tracks.back().id());
-            else if (op.f == "remove_track") { int t = (int)op.i[0]; m.track_ids[t] = 0; for (auto& kv : m.entries) kv.second = without(kv.second, t); }
+            else if (op.f == "remove_track") { int t = (int)op.i[0]; m.track_ids[t] = 0; for (auto& kv : m.entries) kv.second = without(without(kv.second, 2 * t), 2 * t + 1); }
             else if (op.f == "create_root" || op.f == "create_sub" || op.f == "create_root_after" || op.f == "create_sub_after")
             {
                 bool sub = op.f.find("sub") != std::string::npos, after = op.f.find("after") != std::string::npos;
@@ -250,12 +265,13 @@ struct Dom
                     }
                 }
             }
-            else if (op.f == "add_track")
+            else if (op.f == "add_track" || op.f == "pe_add_back")
             {
                 auto& e = m.entries[(int)op.i[0]];
-                if (std::find(e.begin(), e.end(), (int)op.i[1]) == e.end()) e.push_back((int)op.i[1]);
+                int code = 2 * (int)op.i[1] + (op.f == "pe_add_back" ? (int)op.i[2] : 0);
+                if (std::find(e.begin(), e.end(), code) == e.end()) e.push_back(code);
             }
-            else if (op.f == "remove_track_from") m.entries[(int)op.i[0]] = without(m.entries[(int)op.i[0]], (int)op.i[1]);
+            else if (op.f == "remove_track_from") m.entries[(int)op.i[0]] = without(without(m.entries[(int)op.i[0]], 2 * (int)op.i[1]), 2 * (int)op.i[1] + 1);
             else if (op.f == "clear_tracks") m.entries[(int)op.i[0]].clear();
         }
         if (!checking) return healthy;
@@ -281,8 +297,13 @@ struct Dom
             {
                 std::vector<int64_t> got, want;
                 for (auto& t : w.crates[c].tracks()) got.push_back(t.id());
-                for (int t : m.entries.count(c) ? m.entries[c] : std::vector<int>{}) want.push_back(m.track_ids[t]);
+                for (int t : m.entries.count(c) ? m.entries[c] : std::vector<int>{}) want.push_back(m.track_ids[t / 2]);
                 if (got != want) viol("entry_order", "crate " + std::to_string(m.c[c].id) + " tracks() = " + seq(got) + ", expected insertion order " + seq(want));
+                // the table-level listing carries the database uuid of each entry as well
+                std::string got_e, want_e;
+                for (auto& e : w.lib2->playlist_entity().get_for_list(m.c[c].id)) got_e += std::to_string(e.track_id) + (e.database_uuid == w.uuid ? "o " : "f ");
+                for (int t : m.entries.count(c) ? m.entries[c] : std::vector<int>{}) want_e += std::to_string(m.track_ids[t / 2]) + (t % 2 ? "f " : "o ");
+                if (got_e != want_e) viol("entity_listing", "playlist " + std::to_string(m.c[c].id) + " get_for_list() = [" + got_e + "], expected [" + want_e + "] (o = own uuid, f = foreign uuid)");
             }
             // the raw chains, walked independently of the library
             auto chain_ok = [&](const std::string& table, const std::string& group_col, const std::string& next_col) {
@@ -362,7 +383,7 @@ int run(const Options& o)
     c["rule"] =
         "Explicit-state BFS on the real library for each 2.x schema version. Crate mode: create_root_crate, create_root_crate_after(a) for every root a, create_sub_crate(p), "
         "create_sub_crate_after(p,a) for every child a of p, set_parent(c,p) for every non-descendant p and none, set_name, remove_crate, and playlist_table::update moving c under every "
-        "admissible parent at every position (before each sibling and at the end); <= 4 live crates; seeds with offset ids. Entity mode: add_track / remove_track / clear_tracks on 2 crates x 3 "
+        "admissible parent at every position (before each sibling and at the end); <= 4 live crates; seeds with offset ids. Entity mode: add_track / remove_track / clear_tracks and playlist_entity_table::add_back with the library's own and with a foreign database uuid, on 2 crates x 3 "
         "tracks. After every transition each root_crates()/children() listing must equal the model's ordered list exactly (positions the statement leaves open are adopted from the implementation "
         "after checking that the other siblings kept their order and that the crate appears exactly once), tracks() must be in insertion order, and the raw nextListId / nextEntityId chains, "
         "walked without the library, must be single chains covering all rows. Non-trivial = distinct states with a listing of length >= 2.";
